@@ -56,6 +56,27 @@ let run (f : string list) : string =
             | Ok ps ->
                 show_parts ps ^ " " ^
                 String.concat "" (List.map (fun h -> if accepts ty ps (unhex h) then "1" else "0") vals)))
+  | "strchain" :: n :: rest ->
+      (* strchain <n> (<hex length | ~> <np>)*n <nv> <length>*nv : RestrictStr.compile_str_chain with the patterns named
+         100 + 10 i + j as in impl/t_restrict.c *)
+      let n = int_of_string n in
+      let rec levels i r =
+        if i > n then ([], r)
+        else match r with
+          | h :: np :: r' ->
+              let np = int_of_string np in
+              let pats = List.init np (fun j -> 100 + 10 * i + j) in
+              let (ls, r'') = levels (i + 1) r' in
+              (((if h = "~" then None else Some (unhex h)), pats) :: ls, r'')
+          | _ -> ([], []) in
+      let (lv, r) = levels 1 rest in
+      let vals = match r with _ :: vs -> vs | [] -> [] in
+      (match compile_str_chain { se_len = []; se_pats = [] } lv with
+       | Err _ -> "E"
+       | Ok t ->
+           show_parts t.se_len ^ " " ^
+           (if t.se_pats = [] then "-" else String.concat "," (List.map string_of_int t.se_pats)) ^ " " ^
+           String.concat "" (List.map (fun v -> if validate_range t.se_len (zz v) then "1" else "0") vals))
   | _ -> "?"
 
 let () = main_loop run
